@@ -270,23 +270,43 @@ def r16_3(prog, rep):
     # refill: count decremented by the kept number, after the seed has been taken out
     f = prog.fn("refill", "evical.c")
     cfg = f.cfg
-    dec = [(b, i, n, line) for b, i, x, line in cfg.all_elems() for l, kind, n in writes(x) if lv(l).endswith("->count")]
-    hold = [(b, i, n, line) for b, i, x, line in cfg.all_elems() for l, kind, n in writes(x) if lv(l).endswith("->ncch") and kind == "incdec" and "--" in n["op"]]
-    subs = [d for d in dec if d[2].get("k") == "bin" and d[2]["op"] == "-=" and lv(cfg.resolve(d[2]["r"])).endswith("->ncch")]
-    zero = [d for d in dec if d[2].get("k") == "bin" and d[2]["op"] == "=" and int_value(d[2]["r"]) == 0]
-    if len(subs) == 1 and len(hold) == 1:
-        sb = subs[0]
-        # the subtraction is guarded by ncch < count
-        facts = MustFacts(cfg).at(sb[0], sb[1]) or set()
-        guarded = any(fx[0] == "lt" and fx[1].endswith("->ncch") and fx[2].endswith("->count") for fx in facts)
-        after_hold = all(p in cfg.reach_from(hold[0][0]) or p == hold[0][0] for p in [sb[0]])
-        # the subtraction happens on every path on which the filler produced something: it must not be dominated by a test of e.from etc.
-        if guarded and after_hold and zero:
-            rep.ok(rid, "refill/count-decrement", f.loc(sb[3]), "COUNT -= kept (after the seed is held back), clamped at 0")
-        else:
-            rep.fail(rid, "refill/count-decrement", f.loc(sb[3]), "COUNT decrement malformed: guarded=%s after-holdback=%s zero-clamp=%s" % (guarded, after_hold, bool(zero)))
+    # decided by a value-fixed walk of refill() with the filler's answer and the remaining COUNT fixed: what is handed on is the filled
+    # number less the seed held back when the cache came back full, COUNT goes down by exactly that and stops at 0
+    from ..absw import AbsWalk, eval_in
+    from ..facts import calls as _calls
+    cnts = sorted({lv(l) for b, i, x, line in cfg.all_elems() for l, kind, n in writes(x) if lv(l).endswith("->count") or lv(l).endswith(".count")})
+    cnts = [c_ for c_ in cnts if not c_.startswith("lrr")] or cnts
+    nccs = sorted({lv(l) for b, i, x, line in cfg.all_elems() for l, kind, n in writes(x) if lv(l).endswith("->ncch")})
+    grp = prog.macro_int("GRP_CCH_OFF")
+    if len(cnts) != 1 or len(nccs) != 1:
+        raise AnalysisBroken("refill: the stores to the rule's COUNT (%s) and to the cache's fill (%s) were not found" % (cnts, nccs))
+    cnt, ncc = cnts[0], nccs[0]
+    bad, nw = [], 0
+    for nfill in (0, 1, 5, grp - 1, grp):
+        for count in (0, 1, 3, grp - 1, grp, grp + 36):
+            outs = []
+
+            def call_eval(c, store, _n=nfill):
+                return _n if (c.get("fn") or "").startswith("rrul_fill_") else None
+
+            def effect(b, i, x, store, _o=outs, _c=count, _ce=call_eval):
+                if isinstance(x, dict) and x.get("k") == "ret" and x.get("e") is not None:
+                    _o.append((eval_in(store, cfg.resolve(x["e"]), f, _ce), store.get(cnt), store.get(ncc), store.get("$called")))
+                if isinstance(x, dict) and any((c_.get("fn") or "").startswith("rrul_fill_") for c_ in _calls(cfg.resolve(x))):
+                    return {cnt: _c, "$called": 1}
+                return None
+            AbsWalk(f, {"$called", cnt, ncc} | {l_["n"] for l_ in f.locals if l_.get("extent") is None},
+                    init={cnt: count, ncc: 0}, effect=effect, call_eval=call_eval, max_states=50000).run()
+            nw += 1
+            kept = nfill - 1 if nfill >= grp else nfill
+            want = (kept, max(count - kept, 0) if count > 0 else count, kept)
+            got = sorted({o_[:3] for o_ in outs if o_[3] == 1}, key=str)
+            if got != [want]:
+                bad.append("the filler answers %d with COUNT at %d: refill() hands on/leaves COUNT at/keeps %s, expected %s" % (nfill, count, got or "nothing definite", want))
+    if bad:
+        rep.fail(rid, "refill/count-decrement", f.loc(), "%d of %d walks: %s" % (len(bad), nw, "; ".join(bad[:3])), {"examples": bad[:20]})
     else:
-        rep.fail(rid, "refill/count-decrement", f.loc(), "expected one `count -= ncch` and one held-back seed (`--ncch`), found %d/%d" % (len(subs), len(hold)))
+        rep.ok(rid, "refill/count-decrement", f.loc(), "%d walks (filler's answer x remaining COUNT): COUNT -= kept (after the seed is held back), clamped at 0; the kept number is handed on" % nw)
     # exhausted count ends the stream before any filler is called
     first = None
     for b in cfg.blocks:
